@@ -168,6 +168,9 @@ func ExecOpts(op M) (res any) {
 	if asStr(op["op"]) == "optsNil" {
 		return execNilOptions(asStr(op["kind"]) == "writer")
 	}
+	if asStr(op["op"]) == "optsSlice" {
+		return execOptionSlices(asStr(op["kind"]) == "writer")
+	}
 	if asStr(op["op"]) != "optsHist" || !optsWellFormed(op) {
 		return "unknown-op"
 	}
@@ -418,7 +421,8 @@ func optsGen(g *G, tier string) []M {
 		n = 8000
 	}
 	ops := []M{{"op": "optsBackends", "kind": "writer"}, {"op": "optsBackends", "kind": "reader"},
-		{"op": "optsNil", "kind": "writer"}, {"op": "optsNil", "kind": "reader"}}
+		{"op": "optsNil", "kind": "writer"}, {"op": "optsNil", "kind": "reader"},
+		{"op": "optsSlice", "kind": "writer"}, {"op": "optsSlice", "kind": "reader"}}
 	for i := 0; i < n; i++ {
 		isWriter := g.Chance(0.6)
 		steps := []any{}
@@ -573,7 +577,7 @@ func oracleOpts(op M, res any, exec func(M) any) []Finding {
 	if s, ok := res.(string); ok && strings.HasPrefix(s, "panic") {
 		return []Finding{{"C18", "configuration history panicked: " + s}}
 	}
-	if asStr(op["op"]) == "optsNil" {
+	if asStr(op["op"]) == "optsNil" || asStr(op["op"]) == "optsSlice" {
 		r, _ := res.(M)
 		for _, p := range asList(r["problems"]) {
 			out = append(out, Finding{"C18", asStr(p)})
@@ -932,6 +936,61 @@ func execNilOptions(isWriter bool) any {
 	return M{"problems": problems}
 }
 
+// execOptionSlices: a caller keeps his options in one slice (with room to grow) and builds instances
+// from the whole list and from prefixes of it, in any order; and hand-built call options on which
+// format options are set: none of it changes what a constructor without options gives
+func execOptionSlices(isWriter bool) any {
+	problems := []any{}
+	bad := func(format string, a ...any) { problems = append(problems, fmt.Sprintf(format, a...)) }
+	if isWriter {
+		want := js(writerCfg(writer.New()))
+		list := make([]writer.WriterOption, 0, 8)
+		list = append(list, writer.WithFormatOptions("k1", "mine"), writer.WithRenderOptions(&native.RenderOptions{Indent: 7}), writer.WithFormat(formats.CDX15JSON))
+		full := js(writerCfg(writer.New(list...)))
+		for _, k := range []int{1, 2, 0, 3, 1} {
+			_ = writer.New(list[:k]...)
+			if got := js(writerCfg(writer.New(list...))); got != full {
+				bad("a writer built from the caller's option list has %s after another writer was built from its first %d options, before it had %s", got, k, full)
+				break
+			}
+		}
+		call := &writer.Options{Format: formats.SPDX23JSON}
+		call.SetFormatOptions("k2", "for-this-call-only")
+		_ = call.GetFormatOptions("k2")
+		buf := nopCloser{&bytes.Buffer{}}
+		_ = writer.New().WriteStreamWithOptions(tinyDoc, buf, call)
+		if got := js(writerCfg(writer.New())); got != want {
+			bad("after format options were set on hand-built call options a writer constructed without options has %s, the defaults are %s", got, want)
+		}
+		if v := (&writer.Options{}).GetFormatOptions("k2"); v != nil {
+			bad("an independent, empty options value has format option k2=%v after another options value was given it", v)
+		}
+		return M{"problems": problems}
+	}
+	want := js(readerCfg(reader.New()))
+	list := make([]reader.ReaderOption, 0, 8)
+	list = append(list, reader.WithFormatOptions("k1", "mine"), reader.WithRetrieveOptions(&storage.RetrieveOptions{BackendOptions: "b1"}), reader.WithFormatOptions("k2", "too"))
+	full := js(readerCfg(reader.New(list...)))
+	for _, k := range []int{1, 2, 0, 3, 1} {
+		_ = reader.New(list[:k]...)
+		if got := js(readerCfg(reader.New(list...))); got != full {
+			bad("a reader built from the caller's option list has %s after another reader was built from its first %d options, before it had %s", got, k, full)
+			break
+		}
+	}
+	call := &reader.Options{}
+	call.SetFormatOptions("k2", "for-this-call-only")
+	_ = call.GetFormatOptions("k2")
+	_, _ = reader.New().ParseStreamWithOptions(bytes.NewReader([]byte(autoCDX)), call)
+	if got := js(readerCfg(reader.New())); got != want {
+		bad("after format options were set on hand-built call options a reader constructed without options has %s, the defaults are %s", got, want)
+	}
+	if v := (&reader.Options{}).GetFormatOptions("k2"); v != nil {
+		bad("an independent, empty options value has format option k2=%v after another options value was given it", v)
+	}
+	return M{"problems": problems}
+}
+
 var OptsStream = &Stream{
 	Name:       "opts",
 	Gen:        optsGen,
@@ -941,5 +1000,8 @@ var OptsStream = &Stream{
 	Nontrivial: func(op M) bool { return true },
 	OpProps:    func(op M) []string { return []string{"C18"} },
 	Reps:       1,
-	NoModel:    func(op M) bool { return asStr(op["op"]) == "optsBackends" || asStr(op["op"]) == "optsNil" },
+	NoModel: func(op M) bool {
+		o := asStr(op["op"])
+		return o == "optsBackends" || o == "optsNil" || o == "optsSlice"
+	},
 }
